@@ -102,10 +102,23 @@ impl CryptPw {
 
     pub fn check_pw(&self, cred: &str) -> bool {
         match &self {
-            CryptPw::Sha256(crypt) => sha_crypt::sha256_check(cred, crypt.as_str()).is_ok(),
+            CryptPw::Sha256(crypt) => {
+                // sha-crypt 0.5 unwraps while decoding the hash body of a `$5$` entry, so a
+                // malformed (e.g. truncated) hash in the shadow file would panic - inside a PAM
+                // module that aborts the calling process. Treat it as "does not verify" instead.
+                std::panic::catch_unwind(|| sha_crypt::sha256_check(cred, crypt.as_str()).is_ok())
+                    .unwrap_or(false)
+            }
             CryptPw::Sha512(crypt) => sha_crypt::sha512_check(cred, crypt.as_str()).is_ok(),
             CryptPw::YesCrypt(crypt) => {
                 use yescrypt::{PasswordHash, PasswordVerifier, Yescrypt};
+                // A crypt(3) `$y$` entry always carries a 256 bit hash (43 characters). The
+                // verifier derives only as many bytes as the stored hash holds, so a shortened
+                // hash would be compared against a prefix (a 4 character stub still "verifies").
+                if crypt.rsplit('$').next().map(str::len) != Some(43) {
+                    debug!("Refusing yescrypt password hash with a truncated hash body");
+                    return false;
+                }
                 let password_hash = match PasswordHash::new(crypt.as_str()) {
                     Ok(ph) => ph,
                     Err(err) => {
